@@ -108,6 +108,8 @@ pub enum StatusCode {
     RequestGenesis = 417,
     /// Request Duplicate data
     RequestDuplicate = 418,
+    /// The block rebuilt from a CompactBlock is not the block its header commits to
+    CompactBlockHasUnmatchedHeaderWithReconstructedBlock = 419,
 
     ///////////////////////////////////
     //      Warning 5xx              //
